@@ -233,7 +233,7 @@ func (fx *FuncExec) eval(st *State, e ast.Expr) Term {
 			fx.oblige(st, "panic/index", "", and("(<= 0 "+i.S+")", "(< "+i.S+" (slen "+base.S+"))"), "index in range: "+trunc(exprString(e), 60), e.Pos())
 			et := sliceElemType(bt)
 			comp := fx.reg.sliceComp(et)
-			return Term{S: sel(sel(fx.H(st, comp), "(sref "+base.S+")"), "(+ (soff "+base.S+") "+i.S+")"), Sort: fx.reg.SortOf(et), T: et}
+			return Term{S: sel(sel(fx.H(st, comp), "(sref "+base.S+")"), "(sidx (soff "+base.S+") "+i.S+")"), Sort: fx.reg.SortOf(et), T: et}
 		}
 		fx.unsupported(e.Pos(), "index of %s", bt)
 	case *ast.SliceExpr:
@@ -402,7 +402,7 @@ func (fx *FuncExec) evalComposite(st *State, e *ast.CompositeLit, addr bool) Ter
 	t := fx.typeOf(e)
 	switch u := t.Underlying().(type) {
 	case *types.Struct:
-		if u.NumFields() == 0 {
+		if _, named := types.Unalias(t).(*types.Named); u.NumFields() == 0 && !named {
 			return Term{S: "unit", Sort: "Unit", T: t}
 		}
 		si := fx.structValInfo(t)
